@@ -140,3 +140,50 @@ example : gate natOps t₀ [(0, 10), (0, 50)] [a₀] [3] false = .error .length 
 #guard within floatOps (0.0, 1.0) 1.0 && within floatOps (0.0, 1.0) 0.0
 
 end AF.C03
+
+namespace AF.C03
+open AF
+
+variable {V : Type} [Inhabited V]
+
+mutual
+theorem checkTree_eq_all (ops : Ops V) (ρ : Nat → Inst V) : ∀ (t : ATree V),
+    checkTree ops ρ t = t.flatten.all (evalA ops ρ)
+  | .node asserts children => by
+      simp only [checkTree, ATree.flatten, List.all_append, checkTrees_eq_all ops ρ children]
+theorem checkTrees_eq_all (ops : Ops V) (ρ : Nat → Inst V) : ∀ (ts : List (ATree V)),
+    checkTrees ops ρ ts = (flattenTrees ts).all (evalA ops ρ)
+  | [] => by simp [checkTrees, flattenTrees]
+  | t :: rest => by
+      simp only [checkTrees, flattenTrees, List.all_append, checkTree_eq_all ops ρ t,
+        checkTrees_eq_all ops ρ rest]
+end
+
+/-- **Assertions attached anywhere gate the instance**: the recursive check of
+`instance_for_arguments` over the tree of prior-model nodes is exactly the conjunction of *all*
+assertions of *all* nodes, at any nesting level — so `gate_ok_iff` applies with
+`asserts := tr.flatten`. -/
+theorem gateTree_eq_gate (ops : Ops V) (t : Node V) (lims : List (V × V)) (tr : ATree V)
+    (v : List V) (ignore : Bool) :
+    gateTree ops t lims tr v ignore = gate ops t lims tr.flatten v ignore := by
+  simp [gateTree, gate, checkTree_eq_all]
+
+/-- an assertion attached at any depth is in the flattened list (membership through children) -/
+theorem mem_flatten_of_child (asserts : List (Asrt V)) (children : List (ATree V)) (c : ATree V)
+    (hc : c ∈ children) (a : Asrt V) (ha : a ∈ c.flatten) :
+    a ∈ (ATree.node asserts children).flatten := by
+  simp only [ATree.flatten, List.mem_append]
+  right
+  induction children with
+  | nil => simp at hc
+  | cons x xs ih =>
+    simp only [flattenTrees, List.mem_append]
+    rcases List.mem_cons.mp hc with rfl | h
+    · exact Or.inl ha
+    · exact Or.inr (ih h)
+
+example : gateTree natOps t₀ [(0, 10), (0, 50)] (.node [] [.node [a₀] []]) [3, 6] false = .error .fit := by rfl
+example : gateTree natOps t₀ [(0, 10), (0, 50)] (.node [] [.node [a₀] []]) [3, 7] false
+    = .ok (instFromVector natOps t₀ [3, 7]) := by rfl
+
+end AF.C03
